@@ -29,12 +29,17 @@ pub struct Cache {
     recent: Vec<String>,
 }
 
-const WORDS: [&str; 8] = ["a", "A", "ab", "AB", "a b", "a  b", "Ab", ""];
+const WORDS: [&str; 12] = ["a", "A", "ab", "AB", "a b", "a  b", "Ab", "", "a\\", "A\\", "a''b", "a\"b"];
 
 fn gen_query(rng: &mut Rng, with_view: bool) -> String {
     let w = |rng: &mut Rng| format!("'{}'", rng.pick(&WORDS));
     let n = rng.range(0, 5);
-    let base = match rng.below(if with_view { 18 } else { 16 }) {
+    let base = match rng.below(if with_view { 22 } else { 20 }) {
+        // several literals in one statement (what precedes a literal must not change how it is read)
+        16 => format!("SELECT * FROM t0 WHERE s = {} OR s = {}", w(rng), w(rng)),
+        17 => format!("SELECT k, {} FROM t0 WHERE s IN ({}, {})", w(rng), w(rng), w(rng)),
+        18 => format!("SELECT COUNT(*) FROM t0 WHERE s <> {} AND s <> {}", w(rng), w(rng)),
+        19 => format!("SELECT {} , k FROM t0 WHERE s = {}", w(rng), w(rng)),
         0 => format!("SELECT * FROM t0 WHERE s = {}", w(rng)),
         1 => format!("SELECT k FROM t0 WHERE s <> {}", w(rng)),
         2 => format!("SELECT k, {} FROM t0", w(rng)),
@@ -52,7 +57,7 @@ fn gen_query(rng: &mut Rng, with_view: bool) -> String {
         // a CTE that shadows the table it reads (filtering-CTE idiom)
         14 => format!("WITH t1 AS (SELECT k, v FROM t1 WHERE v >= {}) SELECT * FROM t1", n),
         15 => format!("WITH t0 AS (SELECT k FROM t0 WHERE s = {}) SELECT t0.k, t1.v FROM t0, t1 WHERE t0.k = t1.k", w(rng)),
-        16 => format!("SELECT * FROM v0 WHERE s = {}", w(rng)),
+        20 => format!("SELECT * FROM v0 WHERE s = {}", w(rng)),
         _ => "SELECT COUNT(*) FROM v0".to_string(),
     };
     // layout / identifier-case variants of the same query
@@ -63,6 +68,26 @@ fn gen_query(rng: &mut Rng, with_view: bool) -> String {
         3 => format!("  {} ", base),
         _ => base,
     }
+}
+
+/// `q` with one of its string literals replaced by a case / blank-run variant of it (or `q` itself when it
+/// has no literal with a variant)
+fn near_duplicate(rng: &mut Rng, q: &str) -> String {
+    const VARIANTS: [(&str, &str); 10] = [("'a'", "'A'"), ("'A'", "'a'"), ("'ab'", "'AB'"), ("'AB'", "'Ab'"), ("'Ab'", "'ab'"), ("'a b'", "'a  b'"), ("'a  b'", "'a b'"), ("'a\\'", "'A\\'"), ("'A\\'", "'a\\'"), ("'a''b'", "'A''b'")];
+    let mut places: Vec<(usize, usize)> = Vec::new();
+    for (vi, (from, _)) in VARIANTS.iter().enumerate() {
+        let mut start = 0;
+        while let Some(p) = q[start..].find(from) {
+            places.push((start + p, vi));
+            start += p + 1;
+        }
+    }
+    if places.is_empty() {
+        return q.to_string();
+    }
+    let (at, vi) = *rng.pick(&places);
+    let (from, to) = VARIANTS[vi];
+    format!("{}{}{}", &q[..at], to, &q[at + from.len()..])
 }
 
 impl Cache {
@@ -128,7 +153,14 @@ impl Scenario for Cache {
             }
             3 => Op::new(Kind::Delete, format!("DELETE FROM {} WHERE k = {}", t, rng.range(0, 7))).table(t),
             _ => {
-                let q = if !self.recent.is_empty() && rng.chance(3, 5) { rng.pick(&self.recent).clone() } else { gen_query(rng, self.with_view) };
+                let q = if !self.recent.is_empty() && rng.chance(3, 5) {
+                    let q = rng.pick(&self.recent).clone();
+                    // half of the re-issued texts are near-duplicates: one literal replaced by a variant that
+                    // differs only in letter case or in the length of a run of blanks
+                    if rng.chance(1, 2) { near_duplicate(rng, &q) } else { q }
+                } else {
+                    gen_query(rng, self.with_view)
+                };
                 if !self.recent.contains(&q) {
                     self.recent.push(q.clone());
                 }
